@@ -20,6 +20,6 @@ for f in $files; do
     if echo "$got" | grep -q "$pat" && echo "$got" | grep -q "^VIOLATION\|C19REPLAY"; then ok=$((ok+1)); else bad=$((bad+1)); echo "REPLAY MISMATCH $g want=$want got=$(echo "$got" | tail -2 | cut -c1-200)"; fi
   done
 done
-git -C /repo worktree remove --force "$W"; rm -rf "$R"; rm -rf /tmp/verif-replays-other-tree
+git -C /repo worktree remove --force "$W"; rm -rf "$R"; rm -rf "/tmp/verif-replays-$(basename "$W")" "/tmp/verif-evidence-$(basename "$W")"
 echo "replaycheck $ID $(basename $P): $ok replays reproduced, $bad did not ($(echo $files | wc -w) files)"
 [ $bad -eq 0 ] && [ $ok -gt 0 ]
